@@ -1,0 +1,81 @@
+//! Instrumentation used by external verification harnesses. Not part of the
+//! public API; only compiled with the `verif` feature.
+
+use std::cell::RefCell;
+
+/// Status of a thread in a schedule branch.
+#[derive(Debug, Clone, Copy, PartialEq, Eq, Hash)]
+pub enum ThreadStatus {
+    /// Cannot run.
+    Disabled,
+    /// Runnable but not selected for exploration.
+    Skip,
+    /// Yielded.
+    Yield,
+    /// To be explored.
+    Pending,
+    /// Currently explored.
+    Active,
+    /// Already explored.
+    Visited,
+}
+
+/// One decision of an execution path.
+#[derive(Debug, Clone, PartialEq, Eq, Hash)]
+pub enum Branch {
+    /// Which thread runs next.
+    Schedule {
+        /// Status of every thread slot.
+        threads: Vec<ThreadStatus>,
+        /// Preemptions before this branch.
+        preemptions: u8,
+        /// Thread that would continue without a switch.
+        initial_active: Option<u8>,
+        /// Whether alternatives of this branch are explored.
+        exploring: bool,
+    },
+    /// Which store a load reads.
+    Load {
+        /// Candidate stores.
+        values: Vec<u8>,
+        /// Chosen candidate.
+        pos: u8,
+        /// Whether alternatives of this branch are explored.
+        exploring: bool,
+    },
+    /// Whether a wait returns spuriously.
+    Spurious {
+        /// The choice.
+        spur: bool,
+        /// Whether alternatives of this branch are explored.
+        exploring: bool,
+    },
+}
+
+/// When the hook is called.
+#[derive(Debug, Clone, Copy, PartialEq, Eq)]
+pub enum Phase {
+    /// An iteration finished; the path is the complete path it followed.
+    IterationEnd,
+    /// The next iteration was prepared; the path is the prefix it will replay.
+    NextPrepared,
+}
+
+type Hook = Box<dyn FnMut(Phase, usize, &[Branch])>;
+
+thread_local! {
+    static HOOK: RefCell<Option<Hook>> = RefCell::new(None);
+}
+
+/// Install (or remove) the iteration hook of the current OS thread.
+pub fn set_iteration_hook(hook: Option<Hook>) {
+    HOOK.with(|h| *h.borrow_mut() = hook);
+}
+
+pub(crate) fn call(phase: Phase, iteration: usize, path: &crate::rt::Path) {
+    HOOK.with(|h| {
+        if let Some(hook) = h.borrow_mut().as_mut() {
+            hook(phase, iteration, &path.verif_snapshot());
+        }
+    });
+}
